@@ -691,32 +691,43 @@ def interp (env : Env) (steps : Nat) : Nat → VmCtx → Chunk → State → Run
 def run (fuel : Fuel) (env : Env) (vm : VmCtx) (c : Chunk) (st : State) : RunRes :=
   interp env fuel.steps fuel.depth vm c st
 
+/-- `render_to` (1020-1025): the chunk that runs is the main chunk of the top-most parent. -/
+def entryChunk (env : Env) (tpl : TemplateInfo) : Option Chunk :=
+  match tpl.parents.head? with
+  | some base => (env.template base).map (·.chunk)
+  | none => some tpl.chunk
+
+/-- `State::new_with_chunk(context, chunk)` + `global_context`, `capture_block` (1026-1031) -/
+def entryState (block : Option String) (ctx globalCtx : Ctx) : State :=
+  { State.fresh (Scope.root ctx globalCtx) with captureBlock := block }
+
+/-- what `render` / `render_block` hand back: the output, or the buffer of the requested block -/
+def outcomeOf (block : Option String) : RunRes → Outcome
+  | .done st => .ok (if block.isSome then st.blockBuffer else st.out)
+  | .err e => .err e
+  | .panic s => .panic s
+  | .unmodelled w => .unmodelled w
+  | .outOfFuel => .outOfFuel
+
+/-- `Tera::render_block`: `!template.block_lineage.contains_key(block_name)` -/
+def lineageMissing (tpl : TemplateInfo) : Option String → Bool
+  | some b => (assoc b tpl.blockLineage).isNone
+  | none => false
+
 /-- `Tera::render(name, ctx)` (`block = none`) / `Tera::render_block(name, block, ctx)`, through
-`VirtualMachine::render_to` (1012-1045): the chunk that runs is the main chunk of the top-most
-parent, the VM belongs to the template asked for. -/
+`VirtualMachine::render_to` (1012-1045): the VM belongs to the template asked for. -/
 def render (fuel : Fuel) (env : Env) (name : String) (block : Option String) (ctx globalCtx : Ctx) :
     Outcome :=
   match env.template name with
   | none => .err .templateNotFound
   | some tpl =>
-    let lineageMissing := match block with
-      | some b => (assoc b tpl.blockLineage).isNone
-      | none => false
-    if lineageMissing then .err .blockNotFound
+    if lineageMissing tpl block then .err .blockNotFound
     else
-      let chunk? := match tpl.parents.head? with
-        | some base => (env.template base).map (·.chunk)
-        | none => some tpl.chunk
-      match chunk? with
+      match entryChunk env tpl with
       | none => .err .templateNotFound
       | some chunk =>
-        let st0 : State := { State.fresh (Scope.root ctx globalCtx) with captureBlock := block }
-        match run fuel env { template := tpl, autoescapeOverride := none, depth := 0 } chunk st0 with
-        | .done st => .ok (if block.isSome then st.blockBuffer else st.out)
-        | .err e => .err e
-        | .panic s => .panic s
-        | .unmodelled w => .unmodelled w
-        | .outOfFuel => .outOfFuel
+        outcomeOf block (run fuel env { template := tpl, autoescapeOverride := none, depth := 0 } chunk
+          (entryState block ctx globalCtx))
 
 end Vm
 end Tera
